@@ -65,8 +65,15 @@ func genC20Case(ctx *Ctx, i int) *c20case {
 			switch layout {
 			case 1:
 				m.pkg, m.out = c20Mod+"/one", fmt.Sprintf("one/%s.go", f.Name)
+				if (i/4)%3 == 1 {
+					// the value of a mapping is everything after the FIRST '=': file names may contain one
+					m.out = fmt.Sprintf("one/%s=v2.go", f.Name)
+				}
 			case 2:
 				m.pkg, m.out = fmt.Sprintf("%s/pk%d", c20Mod, k), fmt.Sprintf("pk%d/%s.go", k, f.Name)
+				if (i/4)%3 == 1 {
+					m.out = fmt.Sprintf("pk%d/rev=%d-%s.go", k, k, f.Name)
+				}
 			case 3:
 				if k%2 == 0 {
 					m.pkg, m.out = fmt.Sprintf("%s/grp%d/v1", c20Mod, k), fmt.Sprintf("grp%d/v1/%s.go", k, f.Name)
